@@ -114,6 +114,8 @@ var (
 
 func genC19Static(t *rapid.T) C19Case {
 	c := C19Case{Kind: "static", Insecure: rapid.Bool().Draw(t, "insecure")}
+	// the caller's configuration value configured an insecure provider before (tests, a development listener next to the real one)
+	c.Twice = !c.Insecure && rapid.IntRange(0, 2).Draw(t, "sharedconfig") == 0
 	sch := rapid.SampledFrom(c19Schemes).Draw(t, "scheme")
 	sep := rapid.SampledFrom(c19SchemeSeps).Draw(t, "sep")
 	auth := rapid.SampledFrom(c19Auths).Draw(t, "authority")
@@ -285,6 +287,16 @@ func c19Run(c C19Case) (vs []*ev.Violation, class string) {
 		errV := provider.ValidateIssuer(c.Issuer, c.Insecure)
 		spec := world.Spec{IdP: world.IdPConfig{IssuerMode: "static", Issuer: c.Issuer, Insecure: c.Insecure, SignatureAlgorithm: world.AlgRSASHA256}, SPs: []world.SPSpec{stdSP(0)}}
 		_, errP := world.Build(spec)
+		if c.Twice {
+			// the same *provider.Config value first configures a provider in insecure mode, then the provider under test
+			first := world.IdPConfig{IssuerMode: "static", Issuer: "http://dev.idp.example", Insecure: true, SignatureAlgorithm: world.AlgRSASHA256}
+			conf, firstIssuer, firstOpts := world.ProviderConfig(first)
+			st := mustBuild(world.Spec{IdP: world.DefaultIdP(), SPs: []world.SPSpec{stdSP(0)}}).Store
+			if _, err := provider.NewProvider(st, firstIssuer, conf, firstOpts...); err != nil {
+				panic("harness: insecure provider refused: " + err.Error())
+			}
+			_, errP = provider.NewProvider(st, provider.StaticIssuer(c.Issuer), conf)
+		}
 		if (errV == nil) != (errP == nil) {
 			add("constructor-and-validator-disagree", "issuer %q insecure=%v: ValidateIssuer says %v, NewProvider says %v", c.Issuer, c.Insecure, errV, errP)
 		}
